@@ -68,8 +68,19 @@ def rule_reg(ctx):
         ctx.check(ok, "C18.REG", f"{ci.short} constructors", f"constructed only in {sorted({s.short for s in sites})}", f"{ci.name} is constructed in {sorted({s.short for s in sites if s.module is not ci.module})}: a registration without an owner that closes it", ci=ci, text="constructors")
 
 
+_LOOP_NAMES = {"wait_for_messages"}
+
+
+def _loop_names(p):
+    """Names of the methods that run a server connection's receive loop (role query, see common.receive_loops)."""
+    names = {L[0].name for L in receive_loops(p) if L.owner is not None and L.owner.module.name.startswith("indi.transport.server")}
+    _LOOP_NAMES.clear()
+    _LOOP_NAMES.update(names or {"wait_for_messages"})
+    return _LOOP_NAMES
+
+
 def _raise_on_wait(ev):
-    if ev.kind == "call" and is_call(ev.data["term"], method="wait_for_messages"):
+    if ev.kind == "call" and any(is_call(ev.data["term"], method=n) for n in _LOOP_NAMES):
         return True  # unknown exception kind (ConnectionResetError, CancelledError, ...)
     if ev.kind == "call" and ev.data.get("awaited") and ev.data.get("foreign"):
         # anything awaited on the connection's streams (drain, wait_closed, ...) fails with the connection error once the
@@ -96,7 +107,14 @@ def rule_pair(ctx):
             return it.run_function(fn.args[0], list(fn.args[1]) + [Term("param", "reader"), Term("param", "writer")], {k: v for k, v in fn.args[2]})
         raise Undecided("handler() does not return a coroutine function of the repository")
 
-    paths = explore(p, run, {"call_may_raise": _raise_on_wait, "inline": lambda fi, node: False})
+    loopn = _loop_names(p)
+
+    def own_step(fi, node):
+        # what the owner delegates to the connection object itself (a session method of the handler or of a base class
+        # it shares with the other transport) is part of the owner; the receive loop and close() stay observable
+        return fi.cls is not None and fi.cls in tcp.mro and fi.cls.module.name.startswith("indi.transport") and fi.name not in loopn and fi.name not in ("close", "__init__")
+
+    paths = explore(p, run, {"call_may_raise": _raise_on_wait, "inline": own_step})
     ctx.paths_enumerated += len(paths)
     bad = False
     raised_paths = 0
@@ -110,7 +128,7 @@ def rule_pair(ctx):
         if implicit:
             raised_paths += 1
         closes = [e for e in pa.calls(method="close") if isinstance(e.data["callee"], Fn) and e.data["callee"].self_val is conn]
-        waits = pa.calls(method="wait_for_messages")
+        waits = [e for n_ in loopn for e in pa.calls(method=n_)]
         which = "the receive loop raises" if implicit else "the receive loop ends"
         if conn is None:
             ctx.undecided("C18.PAIR", hf.short, "connection construction not found", fi=hf)
@@ -137,7 +155,7 @@ def rule_pair(ctx):
     hd = tty.find_method("handle")
     if hd is None:
         raise Undecided("TTY ConnectionHandler.handle not found")
-    paths = run_method(p, hd, opts={"call_may_raise": _raise_on_wait})
+    paths = run_method(p, hd, self_val=Term("param", "self", hint=tty), opts={"call_may_raise": _raise_on_wait})
     ctx.paths_enumerated += len(paths)
     bad = False
     rp = 0
